@@ -647,6 +647,20 @@ func (n *vfC10Net) start(s *vfC10Sys, op vfh.Op, form string) error {
 		fam = "6"
 	}
 	n.releaseAll()
+	// nothing may be left over from an earlier attempt (a connection that completed after its attempt was torn down)
+	if len(a.sw.ConnsToPeer(x.id)) > 0 || len(x.sw.ConnsToPeer(a.id)) > 0 {
+		n.stats["stragglers_closed"]++
+		if err := vfC10WaitFor("left-over connections to go", func() bool {
+			a.sw.ClosePeer(x.id)
+			x.sw.ClosePeer(a.id)
+			return len(a.sw.ConnsToPeer(x.id)) == 0 && len(x.sw.ConnsToPeer(a.id)) == 0 &&
+				a.notif.count(true, x.id, 0) == a.notif.count(false, x.id, 0) && x.notif.count(true, a.id, 0) == x.notif.count(false, a.id, 0)
+		}); err != nil {
+			return err
+		}
+		a.sw.Backoff().Clear(x.id)
+		x.sw.Backoff().Clear(a.id)
+	}
 	// what the swarm already holds for the peer: admitted earlier, whatever the rules say now
 	if l.pre != "none" {
 		a.gate.bypass.Store(true)
@@ -770,6 +784,10 @@ func (n *vfC10Net) next() (*vfC10Event, error) {
 	for {
 		select {
 		case ev := <-n.ctl.events:
+			if n.stray(ev) {
+				close(ev.release)
+				continue
+			}
 			return ev, nil
 		case r := <-l.localRes:
 			l.localDone = &r
@@ -795,6 +813,31 @@ func (n *vfC10Net) next() (*vfC10Event, error) {
 			return nil, fmt.Errorf("time-out waiting for the next consultation of the %sbound %s attempt with %s", l.dir, l.tpt, l.peer)
 		}
 	}
+}
+
+// stray: a consultation that cannot belong to the live attempt (a listener consultation while nothing is on its way
+// to the listener: e.g. a WebRTC remote whose earlier, refused attempt is still sending connectivity checks)
+func (n *vfC10Net) stray(ev *vfC10Event) bool {
+	l := n.live
+	if l.dir == "out" && !l.remoteStarted && (ev.stage == "accept" || ev.stage == "secured_in") {
+		n.stats["stray_listener_consultations"]++
+		return true
+	}
+	return false
+}
+
+func (n *vfC10Net) relevant(fn string) bool {
+	l := n.live
+	if l == nil {
+		return true
+	}
+	if fn == "accept" || fn == "secured_in" {
+		return l.dir == "in" || l.remoteStarted || (l.opt == "sims" || l.opt == "hps")
+	}
+	if fn == "peerdial" || fn == "addrdial" || fn == "secured_out" {
+		return l.dir == "out"
+	}
+	return true
 }
 
 // step executes one att_step of the model on the live attempt
@@ -839,7 +882,8 @@ func (n *vfC10Net) step(s *vfC10Sys, op vfh.Op) error {
 	if ev == nil {
 		// the real attempt ended before the consultation the model expects
 		l.auto = true
-		s.mismatch("L2:net:consultation-missing", fmt.Sprintf("%s: the model consults %s next, the real attempt ended (%s)", n.desc(), stage, n.ending()), stage, l.stages)
+		s.mismatch("L2:net:consultation-missing", fmt.Sprintf("%s: the model consults %s next, the real attempt ended (%s)", n.desc(), stage, n.ending()), stage,
+			map[string]any{"stages": l.stages, "log": n.a.gate.peek(), "connected_notifs": n.a.notif.count(true, l.x.id, l.am), "conns": len(n.a.sw.ConnsToPeer(l.x.id)), "pre": l.preConns})
 		return nil
 	}
 	if ev.stage != stage {
@@ -946,7 +990,7 @@ func (n *vfC10Net) finish(s *vfC10Sys, op vfh.Op) (vfC10NetOutcome, error) {
 	end := op.S("end")
 	refusal := func() string {
 		for _, r := range a.gate.peek() {
-			if !r.Allow {
+			if !r.Allow && n.relevant(r.Fn) {
 				return r.Fn
 			}
 		}
@@ -979,6 +1023,10 @@ func (n *vfC10Net) finish(s *vfC10Sys, op vfh.Op) (vfC10NetOutcome, error) {
 	for !decided() {
 		select {
 		case ev := <-n.ctl.events:
+			if n.stray(ev) {
+				close(ev.release)
+				continue
+			}
 			if !l.auto && !l.cut && end != "-" {
 				extra++
 				s.mismatch("L2:net:consultation-extra", fmt.Sprintf("%s: consultation %s(%s %s) after the model's last stage %v", n.desc(), ev.stage, ev.peer, ev.addr, l.stages), l.stages, ev.stage)
@@ -1051,6 +1099,18 @@ func (n *vfC10Net) finish(s *vfC10Sys, op vfh.Op) (vfC10NetOutcome, error) {
 	if a.notif.count(true, x.id, l.am) > 0 {
 		out.NewConn = true
 	}
+	if l.tpt == "rtc" && l.dir == "in" && !out.NewConn {
+		// a refused WebRTC remote goes on sending connectivity checks for a moment: let them die down (machinery)
+		last, quiet := len(a.gate.peek()), 0
+		for quiet < 30 {
+			time.Sleep(2 * time.Millisecond)
+			if c := len(a.gate.peek()); c != last {
+				last, quiet = c, 0
+			} else {
+				quiet++
+			}
+		}
+	}
 	a.sw.Backoff().Clear(x.id)
 	x.sw.Backoff().Clear(a.id)
 	out.TransportDials = a.dials() - l.dials0
@@ -1059,7 +1119,11 @@ func (n *vfC10Net) finish(s *vfC10Sys, op vfh.Op) (vfC10NetOutcome, error) {
 			out.RemoteAccepts++
 		}
 	}
-	out.GateLog = a.gate.take()
+	for _, r := range a.gate.take() {
+		if n.relevant(r.Fn) {
+			out.GateLog = append(out.GateLog, r)
+		}
+	}
 	out.Stages = l.stages
 	for _, r := range out.GateLog {
 		if (r.Fn == "accept" || r.Fn == "addrdial") && out.SeenIP == "" {
@@ -1358,6 +1422,9 @@ func TestVerifC10Net(t *testing.T) {
 		}
 	}
 	for k, v := range stats {
+		res.Set(k, v)
+	}
+	for k, v := range n.stats {
 		res.Set(k, v)
 	}
 	if err := res.Write(); err != nil {
